@@ -33,8 +33,47 @@ class C10(scen.WorldProp):
                   "a keep-going Wheatley keeps its pace with silent humans. non-trivial = a fault (size change / "
                   "churn / call) hit a running touch")
 
+    def spawn_case(self, rng):
+        """Server mode, the instance is spawned with --look-to-time: `look_to_has_been_called` runs straight
+        after the tower has loaded, whether or not a row generator has arrived yet (with only the place
+        holder Wheatley rings rounds, calls Stand at the start of the method and stands)."""
+        from harness.props.c19 import method_msg
+        N = rng.choice([4, 6, 8])
+        stage = rng.choice([N, N - 1, 4])
+        humans = sorted(rng.sample(range(2, N + 1), rng.choice([0, 0, 1, 2])))
+        wheatley_bells = [b for b in range(1, 17) if b not in humans]
+        on_join = scen.humans_on_join(humans, "Wheatley", wheatley_bells)
+        arrive = rng.choice(["never", "never", "late", "loading"])
+        events = []
+        if arrive == "loading":
+            on_join = on_join + [method_msg(stage)]
+        elif arrive == "late":
+            events.append([1000.0 + rng.uniform(0.3, 8), "msg", method_msg(stage)])
+        faults = 1
+        t_lt = 1000.0 - rng.uniform(0.0, 2.5)
+        I = scen.interval(180, N)
+        row_t = I * (N + 0.5)
+        end = 1000.0 + 3 + 12 * row_t
+        if rng.random() < 0.5:
+            # a second touch, called in the ordinary way, after the first has stood or been stopped
+            t1 = 1000.0 + 3 + rng.uniform(5, 8) * row_t
+            events += [[t1 - 0.6, "msg", {"m": "stop_touch"}],
+                       [t1 - 0.3, "msg", {"m": "global_state", "state": [True] * N}], call(t1, LOOK_TO)]
+            end = t1 + 3 + 8 * row_t
+            faults += 1
+        events.sort(key=lambda e: e[0])
+        sc = {"start": 1000.0, "end": end, "tower_size": N, "events": events, "on_join": on_join,
+              "look_to_time": scen.f2b(t_lt),
+              "bot": scen.bot_cfg({"type": "placeholder"}, up_down_in=rng.random() < 0.7, stop_at_rounds=False,
+                                  user_name="Wheatley", server_id=rng.randint(1, 9)),
+              "rhythm": scen.rhythm_cfg("wait", inertia=1.0, peal_speed=180)}
+        return {"k": "world", "scenario": sc, "humans": humans, "seed": rng.getrandbits(32), "faults": faults,
+                "silent": False, "t0": t_lt, "spawn": arrive}
+
     def cases(self, rng, tier):
         n = 300 if tier == "quick" else 3000
+        for i in range(n // 10):
+            yield self.spawn_case(rng)
         for i in range(n):
             N = rng.choice([4, 5, 6, 8, 10])
             humans = sorted(rng.sample(range(1, N + 1), rng.randint(0, N - 1)))
@@ -106,6 +145,8 @@ class C10(scen.WorldProp):
         if req["silent"]:
             return None
         humans = req["humans"]
+        if req.get("spawn"):
+            return lambda s: [Band(s, humans, rng, rng.choice([[0.0], [0.0, 0.05], [0.3]]), 0, 0.0)]
 
         def make(s):
             class B(Band):
@@ -128,7 +169,7 @@ class C10(scen.WorldProp):
             return f"the main loop died with {reply['crashed']}"
         if reply["handler_crashes"]:
             return f"a handler raised {reply['handler_crashes']}"
-        if reply["exited"]:
+        if reply["exited"] and sc["bot"].get("server_id") is None:
             return "the main loop returned although this is not server mode"
         # keep-going with silent humans: Wheatley keeps the configured pace (never pauses for anyone)
         if req["silent"] and sc["rhythm"]["kind"] == "regression" and req["faults"] == 0 \
